@@ -61,9 +61,10 @@ type Paint struct {
 	Shape   int      `json:"shape"`
 	Spread  int      `json:"spread"`
 	Colors  [][4]int `json:"colors"`
-	Offsets []F      `json:"offsets"` // stop offsets as float32 bits (they are widened float32)
-	OffOK   int      `json:"offok"`   // 1 when every offset survived float64->float32->float64
-	M       []D      `json:"m"`       // pixel -> gradient matrix a b c d e f
+	Offsets []F      `json:"offsets"`       // stop offsets as float32 bits (they are widened float32)
+	OffOK   int      `json:"offok"`         // 1 when every offset survived float64->float32->float64
+	M       []D      `json:"m"`             // pixel -> gradient matrix a b c d e f
+	M64     [][7]int `json:"m64,omitempty"` // the same, exactly (sign, exponent, five 12-bit limbs)
 }
 
 func paintJ(src image.Image) interface{} {
@@ -88,6 +89,7 @@ func paintJ(src image.Image) interface{} {
 		a, b, c, d, e, f := s.Transform()
 		for _, x := range []float64{a, b, c, d, e, f} {
 			p.M = append(p.M, d64j(x))
+			p.M64 = append(p.M64, d64limbs(x))
 		}
 		return p
 	}
